@@ -66,6 +66,9 @@ type cursorTokenData struct {
 type resolvedCall struct {
 	SchemaIPC []byte
 	StreamID  string
+	// CreatedAt is the call token's mint time, kept so a cache hit enforces
+	// the same TTL that reopening the token would.
+	CreatedAt int64
 }
 
 // defaultCallStateCacheEntries bounds the per-process call cache.
@@ -451,7 +454,7 @@ func (h *HttpServer) packCallToken(callID string, outputSchema *arrow.Schema, au
 	}
 	// Warm the cache with the values we already hold, so this stream's first
 	// continuation does not have to open the token it was just handed.
-	h.callStates.put(callID, auth, &resolvedCall{SchemaIPC: data.SchemaIPC, StreamID: streamID})
+	h.callStates.put(callID, auth, &resolvedCall{SchemaIPC: data.SchemaIPC, StreamID: streamID, CreatedAt: data.CreatedAt})
 	return token, nil
 }
 
@@ -495,6 +498,12 @@ func (h *HttpServer) openCursorToken(token []byte, auth *AuthContext) (*cursorTo
 // named.
 func (h *HttpServer) resolveCall(cursor *cursorTokenData, callToken []byte, auth *AuthContext) (*resolvedCall, error) {
 	if got := h.callStates.get(cursor.CallID, auth); got != nil {
+		// A hit must not outlive the call token it stands in for: the cache
+		// entry's own expiry is measured from when it was stored, not from
+		// when the token was minted.
+		if err := h.checkTokenAge(got.CreatedAt); err != nil {
+			return nil, err
+		}
 		return got, nil
 	}
 	if len(callToken) == 0 {
@@ -515,7 +524,7 @@ func (h *HttpServer) resolveCall(cursor *cursorTokenData, callToken []byte, auth
 		return nil, &RpcError{Type: "RuntimeError", Message: "Malformed state token"}
 	}
 
-	got := &resolvedCall{SchemaIPC: data.SchemaIPC, StreamID: data.StreamID}
+	got := &resolvedCall{SchemaIPC: data.SchemaIPC, StreamID: data.StreamID, CreatedAt: data.CreatedAt}
 	h.callStates.put(cursor.CallID, auth, got)
 	return got, nil
 }
